@@ -364,16 +364,16 @@ theorem filter_usable_eq_nil_iff (ids : List Identity) (h : ids.any malformed = 
 
 /-- the specification as a function of the identity list and the chain -/
 def specOf (ids : List Identity) (chain : List DN) : Bool :=
-  spec { identities := ids, chain := chain, minted := [], plugin := none }
+  spec (ociInput ids chain [] none)
 
 theorem spec_eq_specOf (i : Input) : spec i = specOf i.identities i.chain := by
-  simp [specOf, spec, anyWild, anyMalformed, anyX509, leafValid, anyWithinLeaf, leafAttrs, leafOf]
+  simp only [specOf, spec, anyWild, anyMalformed, anyX509, leafValid, anyWithinLeaf, leafAttrs, leafOf, identities_ociInput, chain_ociInput]
 
 /-- **the model computes the specification** (uses the fact `leafIndex = 0`) -/
 theorem verifyIdentities_eq (hleaf : leafIndex = 0) (ids : List Identity) (chain : List DN) :
     verifyIdentities ids chain = specOf ids chain := by
   unfold verifyIdentities specOf spec
-  simp only [anyWild, anyMalformed, anyX509, leafValid, anyWithinLeaf, leafAttrs, leafOf]
+  simp only [anyWild, anyMalformed, anyX509, leafValid, anyWithinLeaf, leafAttrs, leafOf, identities_ociInput, chain_ociInput]
   have hw : (ids.any fun id => id.raw == wildcard) = ids.any isWild := rfl
   rw [hw]
   by_cases hwild : ids.any isWild = true
